@@ -98,3 +98,4 @@ impl FrameAckQueue {
     }
 }
 
+
